@@ -20,6 +20,7 @@ import RotoV.Lemmas.ListRefine
 import RotoV.Lemmas.ListNested
 import RotoV.Lemmas.ListFor
 import RotoV.Lemmas.ListSelfEq
+import RotoV.Lemmas.ListIter
 
 namespace RotoV.C15
 open RotoV RotoV.ListM
@@ -704,5 +705,85 @@ theorem for_walks_the_list_it_started_on (sz n : Nat) (ops body : List Op) (tmp 
     `[7, 7, 7, 7]` visits 1, 2, 3 -/
 example : run 8 (St.init 3) ([.fromVec 0 [1, 2, 3], .fromVec 1 [7, 7, 7, 7]] ++ forOps 2 0 [[.cloneH 0 1], [], []])
     = [.unit, .unit, .unit, .opt (some 1), .unit, .opt (some 2), .opt (some 3), .opt none, .unit] := by decide
+
+/-! ### T9 — Rust-side iterators, interleaved with every other operation
+
+  `List::into_iter` / `IntoIter::next` (the typed boundary API; `for x in list`,
+  `collect`, `Debug` go through it). An iterator is state that lives ACROSS the
+  other operations of a history: its own list handle and an index. The model
+  (`Model/ListIter`: `IOp`, `istep`) executes the decisions of `into_iter` /
+  `next` as they are regenerated from the source (Generated/ListIter); the
+  specification (`ispecStep`) is a cursor into the one shared vector. -/
+
+/-- tie obligation: what the source says `into_iter` / `next` decide, for every
+    list state, every index and every length the list may have had at creation:
+    start at 0, never answer `None` without asking the list, ask for the
+    element at the index, move on by one. (A `next` that stops at a length
+    remembered from creation makes the second conjunct false.) -/
+theorem iterator_is_a_cursor (inner : RawView) (i n : Nat) :
+    Gen.ListIter.startIdx = 0 ∧
+    Gen.ListIter.nextStopsEarly (Gen.ListIter.mkView inner i n) = false ∧
+    Gen.ListIter.nextIndex (Gen.ListIter.mkView inner i n) = i ∧
+    Gen.ListIter.nextIdxAfter (Gen.ListIter.mkView inner i n) = i + 1 :=
+  iter_decisions inner i n
+
+example : Gen.ListIter.nextIndex (Gen.ListIter.mkView ⟨5, 8⟩ 2 3) = 2 := rfl
+
+/-- T9 `iter_refines_vec`: for ALL element sizes, numbers of variables and ALL
+    histories in which iterator creation, `next` and iterator drop are
+    interleaved in any way with the 17 list operations (pushes, swaps,
+    concatenations, rebinding and dropping of handles through any alias while
+    iterators are alive, several iterators at once, `next` after `None`):
+    every result — in particular everything every `next` yields — is what
+    cursors into vectors shared between the handles give, and the abstraction
+    (same variables, same vectors, same cursors) commutes; under the two
+    hypotheses of `refines_vec` (no capacity-overflow panic; no list holding a
+    NaN compared with itself). -/
+theorem iter_refines_vec (sz n : Nat) (ops : List IOp)
+    (hp : ∀ o ∈ irun sz (ISt.init n) ops, o ≠ .fault .panic)
+    (hq : INoRefl (ISpec.init n) ops) :
+    List.zipWith ieraseCap ops (irun sz (ISt.init n) ops) = ispecRun (ISpec.init n) ops ∧
+      IRel (irunSt sz (ISt.init n) ops) (ispecRunSt (ISpec.init n) ops) :=
+  irun_sim ops (Inv_init sz n) (IRel_init n) hp hq
+
+/-- the work-queue walk: the list grows through an alias while the iterator is
+    alive, `next` after `None` yields again once the list has grown -/
+example : irun 8 (ISt.init 3) [.base (.fromVec 0 [1, 2]), .base (.cloneH 1 0), .iterNew 2 0, .iterNext 2,
+      .base (.push 1 10), .iterNext 2, .iterNext 2, .iterNext 2, .base (.push 0 11), .iterNext 2, .iterDrop 2]
+    = [.unit, .unit, .unit, .opt (some 1), .unit, .opt (some 2), .opt (some 10), .opt none, .unit,
+       .opt (some 11), .unit] := by decide
+
+example : INoRefl (ISpec.init 3) [.base (.fromVec 0 [1, 2]), .iterNew 2 0, .iterNext 2] := by
+  simp [INoRefl, IRefl, ReflShortcut]
+
+/-- T9 `iter_next_reads_current`: in every reachable state of such a history, a
+    `next` on a live iterator (its variable `v` holds the list `a`) returns the
+    element at the iterator's index of that list AS IT IS NOW — whatever was
+    pushed, swapped or rebound through any alias since the iterator was made —
+    the index moves on by exactly one iff there was an element (never
+    backwards, never by more: no element is skipped or repeated as long as the
+    list is only appended to), and nothing else changes. -/
+theorem iter_next_reads_current (sz n : Nat) (ops : List IOp) (v a : Nat) (l : RawList)
+    (hs : (irunSt sz (ISt.init n) ops).st.slots[v]? = some (some a))
+    (hl : (irunSt sz (ISt.init n) ops).st.getAlloc a = some l) :
+    istep sz (irunSt sz (ISt.init n) ops) (.iterNext v) =
+      match l.elems[(irunSt sz (ISt.init n) ops).idx v]? with
+      | some x => (.opt (some x), { irunSt sz (ISt.init n) ops with
+          idx := upd (irunSt sz (ISt.init n) ops).idx v ((irunSt sz (ISt.init n) ops).idx v + 1) })
+      | none => (.opt none, irunSt sz (ISt.init n) ops) :=
+  iterNext_bound (Inv_irunSt ops (Inv_init sz n)) hs hl
+
+example : (irunSt 8 (ISt.init 3) [.base (.fromVec 0 [1, 2]), .iterNew 2 0, .iterNext 2]).st.slots[2]? = some (some 0) ∧
+    (irunSt 8 (ISt.init 3) [.base (.fromVec 0 [1, 2]), .iterNew 2 0, .iterNext 2]).idx 2 = 1 := by decide
+
+/-- the iterator's own handle keeps the walked list: no operation that does not
+    name the iterator's variable changes which list it refers to (the frame
+    lemma of the `for` loops, for the base operations between two `next`s) -/
+theorem iter_keeps_its_list (sz n : Nat) (ops : List IOp) (body : List Op) (v : Nat)
+    (hb : ∀ op ∈ body, op.writes v = false) :
+    (runSt sz (irunSt sz (ISt.init n) ops).st body).slots[v]? = (irunSt sz (ISt.init n) ops).st.slots[v]? :=
+  runSt_slot_frame body (Inv_irunSt ops (Inv_init sz n)) v hb
+
+example : ∀ op ∈ [Op.push 0 1, .concat 0 0 0, .dropH 1], op.writes 2 = false := by decide
 
 end RotoV.C15
